@@ -386,7 +386,7 @@ def t_codegen(T, tier):
 # ------------------------------------------------------------------ Grid.filter row loop
 def t_rowloop(T, tier):
     from props.C14 import grid_ctor_contract
-    for nrows, limit in itertools.product((0, 1, 2, 3), (0, 1, 2)):
+    for nrows, limit, given in itertools.product((0, 1, 2, 3), (0, 1, 2), (True, False)):
         w = World()
         CG.install(w)
         w.contracts[CG.MOD + '.Grid.reindex'] = CG.reindex_contract
@@ -394,13 +394,14 @@ def t_rowloop(T, tier):
         w.under_verification = CG.MOD + '.Grid.filter'
         sel = [z3.Const('row%d_selected' % i, B) for i in range(3)]
 
-        def run(it, nrows=nrows, limit=limit):
+        def run(it, nrows=nrows, limit=limit, given=given):
             rows = [it.ctx.fresh('r%d' % i, V) for i in range(nrows)]
             for r in rows:
                 it.ctx.assume(z3.And(CG.is_dict(r), z3.Not(CG.has30(r))))
             for ax in CG.has30_definition():
                 it.ctx.assume(ax)
-            g = SObj(CG.grid_class(w), {'_row': [SVal(r) for r in rows], '_index': None, '_version': SVal(it.ctx.fresh('ver', V)), '_version_given': True,
+            g = SObj(CG.grid_class(w), {'_row': [SVal(r) for r in rows], '_index': None, '_version': SVal(it.ctx.fresh('ver', V)), '_version_given': given,      # a version given by the caller / detected from the content
+                                        
                                          'metadata': SVal(it.ctx.fresh('md', V)), 'column': SVal(it.ctx.fresh('cols', V)), '$lt30': False})
             seen = []
 
@@ -439,7 +440,7 @@ def t_rowloop(T, tier):
             it.ctx.oblige('Grid.filter/frame.source_untouched', z3.BoolVal(len(g.fields['_row']) == nrows and all(a.term is b for a, b in zip(g.fields['_row'], rows))
                                                                            and g.fields['_index'] is None))
             it.ctx.oblige('Grid.filter/ensures.function_applied_to_the_source_grid_and_row', z3.BoolVal(all(a[0] is g for a in seen)))
-        T.explore(w, run, 'rows=%d/limit=%d' % (nrows, limit))
+        T.explore(w, run, 'rows=%d/limit=%d%s' % (nrows, limit, '' if given else '/version-detected'))
 
 
 # ------------------------------------------------------------------ filter text -> parser -> generator -> exec'd function: data flow
